@@ -82,6 +82,7 @@ class HidDevice:
         self.faults_fired = {}
         self.writes = []              # (seq#, t_us, unit, bytes)
         self.delivered = []           # (t_us, report) as handed to the driver
+        self.delivered_gens = []      # device generation of each delivered report
         self.detections = []          # (t_us, how): the driver was told the device is gone
         self.losses = []              # (t_us, mode)
         self.returns = []             # t_us
@@ -233,6 +234,7 @@ class HidDevice:
             return
         self.queue.append(data)
         self.delivered.append((self.world.now_us(), data))
+        self.delivered_gens.append(gen)
         self.world.log.add(self.loop.time(), "report", self.name,
                            data[:9].hex())
         self._refire()
